@@ -25,6 +25,21 @@ META = {
     'C06': dict(cat='exploration', technique='property-based testing: independent reference look-ahead justifies every broken group (documents); metamorphic one-line test over widths >= L (values)',
                 text='Same document space as C05: every observable broken group must be justified by a reference look-ahead written from the statement. Values (built-ins, subclasses, call types, stdlib instances) whose unbounded rendering is one line of L columns print as that line at widths L, L+1, L+2, L+7, 2L+3.',
                 note='Reference look-ahead reads the forced-break clause broadly (never stricter than the statement).', ref='3/C06'),
+    'C07': dict(cat='exploration', technique='property-based testing: per-type instance strategies, eval round-trip with observable-state equality, totality via recorded warnings',
+                text='Instances of every stdlib type with a bundled printer (boundary values: zero/negative/maximal timedeltas, fold, fixed/named/pytz zones, empty and bounded deques ...) in 7 nesting contexts x layout configurations: no printer falls back to repr, and the output evaluates to an equal object of the same type.',
+                note='Equality = Python == plus observable state where == ignores it (fold, maxlen, default_factory, order, partial parts); tzinfo compared through a probe datetime.', ref='3/C07'),
+    'C08': dict(cat='exploration', technique='property-based testing: eval round-trip + AST shape of the constructor call (bounded-exhaustive class family x boundary values x placements x all widths + Hypothesis)',
+                text='29 subclasses (plain/__repr__/__str__ overriding, IntEnum, (str, Enum)) of the nine built-in bases x boundary values x 7 placements x every width from 1 to L+4, plus random values: evaluation gives the same subclass and base value and the AST is Call(qualname, literal).',
+                note='Qualified names resolve through the importable module ppv.vtypes.', ref='3/C08'),
+    'C09': dict(cat='exploration', technique='property-based testing: metamorphic AST equality against the comment-stripped value + COMMENT-token word sequence against a pre-order reference (bounded-exhaustive placements + Hypothesis)',
+                text='All placements of <= 2 comments/trailing comments on all trees <= 3/4 nodes x adversarial texts (newlines, blank lines, #, quotes, brackets) x widths, plus random trees incl. dict keys, set elements and call arguments: the syntax tree is unchanged, every comment word appears in order inside # comments, nothing raises or warns.',
+                note='Trailing comments on nodes whose printer documents no support are expected to be dropped with the documented warning; set displays are compared as multisets.', ref='3/C09'),
+    'C10': dict(cat='exploration', technique='property-based testing against a reference truncation model (bounded-exhaustive shapes x N + Hypothesis), tokenize for the notices',
+                text='Container shapes over all five kinds nested to depth 2 x every N plus None, long containers around the default limit, and random trees: eval(output) equals the reference truncation, one notice per truncated reached container with the exact count, None == huge limit.',
+                note='First N = live iteration order of the object; sort_dict_keys off.', ref='3/C10'),
+    'C11': dict(cat='exploration', technique='property-based testing: value-driven parallel walk of the depth-limited and unlimited ASTs (bounded-exhaustive shapes x every depth + Hypothesis)',
+                text='All container shapes <= 4/5 nodes with unique leaves x every depth 0..height+2 and None, plus random shapes: placeholders of the element\'s own type appear exactly at nesting level >= depth, everything above is unchanged, depth > height is identical to None.',
+                note='Two tolerances where the statement is silent (str dict keys exactly at the cut; empty list/tuple/set beyond the cut).', ref='3/C11'),
 }
 
 ALL_IDS = ['C%02d' % i for i in range(1, 21)]
